@@ -20,6 +20,7 @@ import (
 	"sort"
 	"strings"
 	"sync"
+	"sync/atomic"
 
 	"gorm.io/gorm"
 	"gorm.io/gorm/schema"
@@ -114,6 +115,7 @@ type c12kObs struct {
 var (
 	c12kDDLOnce sync.Once
 	c12kDDL     []string
+	c12kSkipped atomic.Int64
 )
 
 func c12kShow(k c12kKey) string { return "<" + strings.Join(k, "|") + ">" }
@@ -252,7 +254,9 @@ func c12kExec(s c12kSeq) []c12kObs {
 	if len(s.Own) > 0 {
 		vals = nil
 		if err := db.Preload(k.Field).Order("id").Find(&vals, []int{1, 2}).Error; err != nil || len(vals) != 2 {
-			panic(fmt.Sprint("preload of the operated owners failed: ", err))
+			// loading the operated records is not an operation of the sequence (preloading is property C11's): the sequence is not judged
+			c12kSkipped.Add(1)
+			return nil
 		}
 	}
 	var model interface{} = &vals[0]
@@ -927,6 +931,9 @@ func init() {
 		wg.Wait()
 		for i, s := range batch {
 			c12kCase(r, s, obs[i])
+		}
+		if n := c12kSkipped.Load(); n > 0 {
+			r.Note("key-sequences: %d sequences not judged (the operated records could not be loaded with Preload)", n)
 		}
 	})
 	replay := func(r *Result, input json.RawMessage) {
